@@ -159,7 +159,8 @@ class C16(Engine):
         withdef = emits[: max(6, len(emits) // 2 if not q else 8)] + hasdef
         rng.shuffle(cands)
         n = 56 if q else 1200
-        zoo = [f for f in cands if P.meta[f]["group"] == "special_zoo"]
+        self.depth_ids = set(f for f in cands if P.meta[f]["group"] == "special_depth")
+        zoo = [f for f in cands if P.meta[f]["group"] == "special_zoo"] + sorted(self.depth_ids)
         late = [f for f in cands if P.meta[f]["group"] == "viol" and any(t in P.meta[f]["origin"] for t in ("_late", "late_", "long_preamble"))]
         zoo += late[: (4 if q else 100)] + [f for f in self.late_ids if f in cands]
         chosen = withdef[: n // 3] + [f for f in self.edge_ids if f in cands][: n // 3] + zoo
@@ -183,6 +184,8 @@ class C16(Engine):
             word = WORDS[rng.randrange(len(WORDS))]
             ref = {"nocol": 1, "fmt": "humanized", "o": 0, "dbg": 0, "R": None, "Rkind": None, "inline": 0}
             for vi, v in enumerate(vectors(word)):
+                if fid in self.depth_ids and (v["o"] or v["Rkind"] == "word" or v["fmt"] == "json" or not v["nocol"]):
+                    continue      # the depth family is there for the channels and the debug levels: 27 of the 216 vectors
                 sc = {"kind": "opt", "fid": fid, "vec": v, "ref": ref, "tree": {f["name"]: "@" + fid},
                       "ops": [{"op": "cli", "argv": argv_of(v, f["name"], f["content"])}]}
                 yield idx, sc
@@ -196,24 +199,21 @@ class C16(Engine):
         for i in range(n):
             rng = core.derive_rng("c16.multi", self.seed, i)
             k = rng.randrange(2, 4)
-            fids = []
-            names = set()
-            for _ in range(20):
-                fid = self.chosen[rng.randrange(len(self.chosen))]
-                if P.files[fid]["name"] not in names:
-                    names.add(P.files[fid]["name"])
-                    fids.append(fid)
-                if len(fids) == k:
-                    break
+            fids = [self.chosen[rng.randrange(len(self.chosen))] for _ in range(k)]
+            if rng.random() < 0.3:
+                # two different files of one base name in different directories
+                same = [f for f in self.chosen if P.files[f]["name"] == P.files[fids[0]]["name"] and f != fids[0]]
+                if same:
+                    fids[-1] = same[rng.randrange(len(same))]
             word = WORDS[rng.randrange(len(WORDS))]
             vs_ = [v for v in vectors(word) if not v["inline"]]
             v = vs_[rng.randrange(len(vs_))]
             if rng.random() < 0.5:
                 v = dict(v)
                 v["R"], v["Rkind"] = "CheckDefine", "CheckDefine"
-            argv = argv_of(v, "X", "")[:-1] + [P.files[f]["name"] for f in fids]
-            yield 5_000_000 + i, {"kind": "multi", "vec": v, "ref": ref, "tree": {P.files[f]["name"]: "@" + f for f in fids},
-                                  "ops": [{"op": "cli", "argv": argv}]}
+            tree = {f"m{j}": {P.files[f]["name"]: "@" + f} for j, f in enumerate(fids)}
+            argv = argv_of(v, "X", "")[:-1] + [f"m{j}/{P.files[f]['name']}" for j, f in enumerate(fids)]
+            yield 5_000_000 + i, {"kind": "multi", "vec": v, "ref": ref, "tree": tree, "ops": [{"op": "cli", "argv": argv}]}
 
     def the_file(self, sc):
         for k, v in (sc.get("tree") or {}).items():
@@ -234,9 +234,14 @@ class C16(Engine):
 
     def all_files(self, sc):
         out = []
-        for k, v in sorted((sc.get("tree") or {}).items()):
-            if isinstance(v, str) and v.startswith("@"):
-                out.append((k, file_of(sc, v[1:])))
+
+        def walk(node):
+            for k, v in sorted(node.items()):
+                if isinstance(v, dict):
+                    walk(v)
+                elif isinstance(v, str) and v.startswith("@"):
+                    out.append((k, file_of(sc, v[1:])))
+        walk(sc.get("tree") or {})
         return out
 
     def judge(self, sc, res, refs):
@@ -284,20 +289,38 @@ class C16(Engine):
         byname = {}
         for nm, r in results:
             byname.setdefault(nm, []).append(r)
-        for name, f in self.all_files(sc):
-            rr = refs[self.ref_key(name, f)]
-            if rr.get("killed"):
+        files = self.all_files(sc)
+        names = sorted(set(n for n, _ in files))
+        for name in names:
+            group = [(n, f) for n, f in files if n == name]
+            exp = []
+            for n, f in group:
+                rr = refs[self.ref_key(n, f)]
+                if rr.get("killed"):
+                    exp = None
+                    break
+                a = file_result(rr["ops"][0])
+                if a is None:
+                    exp = None      # the reference reaches no verdict for this file (fatal by default, possibly tolerated under -d):
+                    break           # excluded from (a), as the statement says
+                exp.append((f, a, rr["ops"][0]))
+            if exp is None:
                 continue
-            o_ref = rr["ops"][0]
-            a = file_result(o_ref)
-            if a is None:
-                continue            # the reference reaches no verdict (fatal): nothing to compare for this file
-            got = byname.get(name, [])
-            if len(got) != 1:
-                vs.append(Violation(self.prop, "C16.a-same-findings", f"multi-file run under {self.vec_kind(v)}: a file that reaches a verdict alone is reported {len(got)} times",
-                                    {"file": name, "argv": short_argv(sc["ops"][0]["argv"])}))
+            got = list(byname.get(name, []))
+            if len(got) != len(exp):
+                vs.append(Violation(self.prop, "C16.a-same-findings", "multi-file run: a file that reaches a verdict alone is missing from (or repeated in) the report",
+                                    {"file": name, "reported": len(got), "expected": len(exp), "argv": short_argv(sc["ops"][0]["argv"]), "options": self.vec_kind(v)}))
                 continue
-            vs += self.compare(sc, v, f, a, got[0], o_ref, sc["ops"][0]["argv"], "multi-file run: ", o)
+            if len(exp) == 1:
+                f, a, o_ref = exp[0]
+                vs += self.compare(sc, v, f, a, got[0], o_ref, sc["ops"][0]["argv"], "multi-file run: ", o)
+            elif v["Rkind"] != "CheckDefine":
+                # several files of one base name: compare as multisets (the report does not say which is which)
+                ka = sorted(repr((a[0], a[1])) for f, a, o_ref in exp)
+                kb = sorted(repr((b[0], b[1])) for b in got)
+                if ka != kb:
+                    vs.append(Violation(self.prop, "C16.a-same-findings", "multi-file run: files of one base name are not all reported with their own findings",
+                                        {"file": name, "argv": short_argv(sc["ops"][0]["argv"]), "options": self.vec_kind(v)}))
         return vs
 
     def compare(self, sc, v, f, a, b, o_ref, argv, prefix, o_var=None):
@@ -449,8 +472,11 @@ class C16(Engine):
         P = self.pools
         scs = []
         rng = core.derive_rng("c16.fid", self.seed, 0)
+        # not the #if-depth family: where it flips depends on the depth of the caller's stack (absolute recursion limit inside the
+        # #if parser), and the simulated process calls main() from a deeper stack than `python -m norminette` does
+        pickable = [f for f in self.chosen if f not in self.depth_ids]
         for i in range(5):
-            fid = self.chosen[rng.randrange(len(self.chosen))]
+            fid = pickable[rng.randrange(len(pickable))]
             f = P.files[fid]
             v = vectors("Whatever")[rng.randrange(216)]
             if v["dbg"] == 2:
